@@ -4,6 +4,8 @@
 -/
 import Walleye.Proofs.RootCorollaries
 import Walleye.Proofs.RootNonneg
+import Walleye.Proofs.NonnegRun
+import Walleye.Model.SearchChess
 import Walleye.Model.UciText
 namespace Walleye
 open DrawTable
@@ -150,6 +152,30 @@ theorem root_alpha_monotone (fuel curDepth : Nat) (first : P) (t : DrawTable) (l
     (hrun : rootLoop g ord (fuel + 1) curDepth first l alpha best s = .ok (some (A, B)) s')
     (hnx : s'.expired = false) : alpha ≤ A :=
   (rootLoop_nonneg g ord fuel curDepth first t l alpha best s s' A B hs hrun hnx).1
+
+/-- **C10, second sentence, for a WHOLE run of `get_best_move`** — every game whose ordering tag does
+    not change the key, every clock expiry, every ordering oracle that permutes, at every point of the
+    run and whatever its outcome: if some root move leads to a position the repetition record already
+    holds twice, then for every depth d ≥ 1 that the run completed (it went on to report a line of a
+    larger depth) there is a line of depth d with a score ≥ 0.  Lines of one depth carry strictly
+    increasing scores (`info_stream_is_ordered`, Props/C18), so the LAST line of every completed depth —
+    the engine's final score for that depth — is ≥ 0. -/
+theorem final_scores_of_completed_depths_are_nonneg (hperm : OrdPerm ord)
+    (hkey : ∀ x v, g.key (g.withOh x v) = g.key x) (fuel : Nat) (root : P) (t : DrawTable) (s : SS P O)
+    (hs : s.reports = #[]) (hte : TableEq s.table t) (m : P) (hm : m ∈ g.gen root .all)
+    (hrep : t.isThreefold (g.key m) = true) :
+    ∀ d, 1 ≤ d → (∃ i ∈ infosOf (outState (getBestMove g ord (fuel + 1) root s)).reports, d < i.depth) →
+      ∃ j ∈ infosOf (outState (getBestMove g ord (fuel + 1) root s)).reports, j.depth = d ∧ 0 ≤ j.eval :=
+  getBestMove_G g ord hperm hkey fuel root t s hs hte m hm hrep
+
+/-- the chess instance: re-tagging a successor as the PV node does not touch its key -/
+theorem chess_final_scores_of_completed_depths_are_nonneg {O : Type} (h : Hasher) (ord : Oracle Pos O)
+    (hperm : OrdPerm ord) (fuel : Nat) (root : Pos) (t : DrawTable) (s : SS Pos O)
+    (hs : s.reports = #[]) (hte : TableEq s.table t) (m : Pos) (hm : m ∈ generateMoves h root .all)
+    (hrep : t.isThreefold m.key = true) :
+    ∀ d, 1 ≤ d → (∃ i ∈ infosOf (outState (getBestMove (chessGame h) ord (fuel + 1) root s)).reports, d < i.depth) →
+      ∃ j ∈ infosOf (outState (getBestMove (chessGame h) ord (fuel + 1) root s)).reports, j.depth = d ∧ 0 ≤ j.eval :=
+  final_scores_of_completed_depths_are_nonneg (chessGame h) ord hperm (fun _ _ => rfl) fuel root t s hs hte m hm hrep
 
 /-- the fix of 4553a5f: also a FOURTH, fifth … occurrence is a draw (`>= 2`, not `== 2`) -/
 example : DrawTable.isThreefold [(7, 5)] 7 = true := by decide
